@@ -36,6 +36,9 @@ _spec.loader.exec_module(cppdefaults)
 _spec2 = importlib.util.spec_from_file_location("verif_translate_clioptions", str(common.VERIF / "translate" / "clioptions.py"))
 clioptions = importlib.util.module_from_spec(_spec2)
 _spec2.loader.exec_module(clioptions)
+_spec3 = importlib.util.spec_from_file_location("verif_translate_langtable", str(common.VERIF / "translate" / "langtable.py"))
+langtable = importlib.util.module_from_spec(_spec3)
+_spec3.loader.exec_module(langtable)
 
 _RAW = re.compile(r"[A-Za-z0-9_.:+-]+")
 
@@ -1437,6 +1440,11 @@ def run(ctx: common.Ctx):
         ctx.extra["translator"]["clioptions"] = "rewritten" if changed else "unchanged"
     except Exception as e:  # noqa
         ctx.broken.append({"kind": "translator", "translator": "clioptions", "error": repr(e)})
+    try:
+        changed = langtable.main(common.REPO)
+        ctx.extra["translator"]["langtable"] = "rewritten" if changed else "unchanged"
+    except Exception as e:  # noqa
+        ctx.broken.append({"kind": "translator", "translator": "langtable", "error": repr(e)})
     drivers = ctx.prove(["C13"], exes=["config"])
     drv = drivers.get("config")
     ctx.rule = ("deep_update: every (target, source) pair of the universe {dicts over keys a,b, depth<=2, leaves scalar/DefaultValue(/list)} "
@@ -1461,6 +1469,9 @@ def run(ctx: common.Ctx):
     stream_cli(ctx, drv, rng)
     stream_cpp_shorthand_vs_files(ctx, rng)
     stream_cli_defaults_vs_files(ctx, rng)
+    # round 2 (kept last so that the streams above see the same random numbers as before)
+    from . import c13_ctx
+    c13_ctx.stream_process_history(ctx, drv, rng)
 
 
 def replay(ctx, path):
